@@ -144,6 +144,10 @@ func (vm *VM) convertPanic(msg any) error {
 		return err
 	case *fatalError:
 		return err
+	case *PanicError:
+		// A function called by a native function has panicked and the
+		// native function has not recovered the panic.
+		return err
 	case outError:
 		return vm.newPanic(err)
 	}
